@@ -1065,6 +1065,110 @@ def switches(body):
     return [Switch(body, b) for b, blk in enumerate(body.blocks) if blk["term"]["k"] == "switch"]
 
 
+def reach_with_values(body, starts, var_locals, avoid_blocks=(), avoid_edges=(), max_states=400000):
+    """blocks reachable from `starts` on paths that are consistent about (a) the integer variable(s) `var_locals` (one source variable,
+    possibly copied/cast): a path that took the arm for value v cannot later take the arm for another value; and (b) temporaries that are
+    assigned a constant and switched on later (`matches!(..)` / `a && b` materialise a bool in each arm and test it after the merge).
+    Normal edges only. Returns the set of reachable blocks."""
+    var_locals = set(var_locals)
+    avoid_blocks = set(avoid_blocks)
+    avoid_edges = set(avoid_edges)
+    sws = {sw.block: sw for sw in switches(body)}
+    sw_on_var = {}
+    direct = {}          # switch block -> local tested directly
+    for b, sw in sws.items():
+        t = body.blocks[b]["term"]
+        l = op_local(t["op"])
+        if l is not None and not (t["op"].get("pl") or {}).get("p"):
+            direct[b] = l
+        if not sw.is_bool():
+            vis = set()
+            origins(body, t["op"], visited=vis)
+            if vis & var_locals:
+                sw_on_var[b] = sw
+    tracked = set(direct.values())
+    # constant assignments to tracked temporaries, and copies between them, per block (in order)
+    const_assign = {}
+    for b, blk in enumerate(body.blocks):
+        ops = []
+        for st in blk["stmts"]:
+            if st["k"] == "assign" and not st["lhs"]["p"] and st["lhs"]["l"] in tracked:
+                if st["rv"]["k"] == "use":
+                    c_ = const_int(st["rv"]["op"])
+                    src = op_local(st["rv"]["op"])
+                    if c_ is not None:
+                        ops.append((st["lhs"]["l"], ("c", c_)))
+                    elif src in tracked and not (st["rv"]["op"].get("pl") or {}).get("p"):
+                        ops.append((st["lhs"]["l"], ("l", src)))
+                    else:
+                        ops.append((st["lhs"]["l"], None))
+                elif st["rv"]["k"] == "un" and st["rv"].get("op_") in ("Not",) or (st["rv"]["k"] == "unary"):
+                    ops.append((st["lhs"]["l"], None))
+                else:
+                    ops.append((st["lhs"]["l"], None))
+        # a call defines its destination
+        t = blk["term"]
+        if t["k"] == "call" and t.get("dest") and not t["dest"]["p"] and t["dest"]["l"] in tracked:
+            ops.append((t["dest"]["l"], None))
+        if ops:
+            const_assign[b] = ops
+    succ = body.succ("n")
+    seen = set()
+    dq = deque((b, None, frozenset()) for b in starts)
+    out = set()
+    while dq and len(seen) < max_states:
+        b, allowed, env = dq.popleft()
+        if (b, allowed, env) in seen or b in avoid_blocks:
+            continue
+        seen.add((b, allowed, env))
+        out.add(b)
+        if b in const_assign:
+            e = dict(env)
+            for l, v in const_assign[b]:
+                if v is None:
+                    e.pop(l, None)
+                elif v[0] == "c":
+                    e[l] = v[1]
+                elif v[1] in e:
+                    e[l] = e[v[1]]
+                else:
+                    e.pop(l, None)
+            env = frozenset(e.items())
+        sw = sws.get(b)
+        if sw is None:
+            for v in succ[b]:
+                if (b, v) not in avoid_edges:
+                    dq.append((v, allowed, env))
+            continue
+        envd = dict(env)
+        if b in direct and direct[b] in envd and b not in sw_on_var:
+            val = envd[direct[b]]
+            tgt = next((t_ for v_, t_ in sw.targets if v_ == val), sw.otherwise)
+            if tgt is not None and (b, tgt) not in avoid_edges:
+                dq.append((tgt, allowed, env))
+            continue
+        if b not in sw_on_var:
+            for v in succ[b]:
+                if (b, v) not in avoid_edges:
+                    dq.append((v, allowed, env))
+            continue
+        explicit = {val for val, _ in sw.targets}
+        for val, tgt in sw.targets:
+            ok_val = allowed is None or (val not in allowed[1] if isinstance(allowed, tuple) else val in allowed)
+            if ok_val and (b, tgt) not in avoid_edges:
+                dq.append((tgt, frozenset([val]), env))
+        if sw.otherwise is not None and (b, sw.otherwise) not in avoid_edges:
+            if allowed is None:
+                dq.append((sw.otherwise, ("not", frozenset(explicit)), env))
+            elif isinstance(allowed, tuple):
+                dq.append((sw.otherwise, ("not", allowed[1] | frozenset(explicit)), env))
+            else:
+                rest = frozenset(allowed - explicit)
+                if rest:
+                    dq.append((sw.otherwise, rest, env))
+    return out
+
+
 def bool_value_edges(body, pred, switches_cache=None):
     """For every bool SwitchInt whose tested value has an origin o with pred(o)
     true, yield (switch, true_edges, false_edges) in terms of the ORIGIN value
